@@ -49,19 +49,21 @@ A_ENV_GEN = ("the task body is unknown code behind generator.send/throw/close (e
              "while a task's body runs or its context hooks run nothing re-enters that task (site assumptions in contracts/*_c.py)")
 A_UNWRAP = ("unwrap's body is verified against a one-level unfolding of the relation R_unwrap (same shape, futures replaced by their values; "
             "R_unwrap is defined as the least relation closed under the introduction rules R_intro); _continue uses the caller-facing contract "
-            "unwrap!effectfree (no callout because every leaf is computed at its only call site). extract_futures is used through a trusted "
-            "contract: its body and the 'first failing leaf in structure order' clause of unwrap are covered by the bounded stand-in "
-            "bounded:structures (all yielded structures to depth 2/3, width 3), labelled bounded, not proved")
+            "unwrap!effectfree (no callout because every leaf is computed at its only call site: trusted). extract_futures' body is verified "
+            "against one-level unfoldings of Leaf/EFN/EFS/EFP (count, soundness, completeness, segment of every member right-to-left / dict values "
+            "left-to-right) under the assumption that the scanned structure is a finite acyclic nest that is not mutated during the scan and does "
+            "not contain the accumulator; order at depth and the 'first failing leaf in structure order' clause of unwrap are covered by the "
+            "bounded stand-in bounded:structures (all yielded structures to depth 2/3, width 3), labelled bounded, not proved")
 
 PROPERTIES = {
     "C01": {
-        "functions": [T + "_continue", T + "_continue_on_generator", T + "_accept_yield_result", T + "_queue_exit", "async_task.unwrap",
+        "functions": [T + "_continue", T + "_continue_on_generator", T + "_accept_yield_result", T + "_queue_exit", "async_task.unwrap", "async_task.extract_futures",
                       T + "_compute", T + "_computed", F + "FutureBase.value", F + "FutureBase.set_value",
                       S + "wait_for", S + "_execute", S + "_continue_with_task"],
         "assumptions": [A_ENV_GEN, A_UNWRAP,
                         "composition argument (prose, DESIGN.md C01): a generator is a deterministic function of the values sent into it, so per-step contracts give equality with sequential evaluation by induction over the finite acyclic computation"],
         "bounded": [{"name": "structures", "quick": True}],
-        "not_proved": ["whole-program equality with sequential evaluation (composition argument)", "unwrap/extract_futures bodies (bounded)"],
+        "not_proved": ["whole-program equality with sequential evaluation (composition argument)", "composition of the one-level unwrap/extract_futures contracts over nesting depth (bounded: structures)"],
     },
     "C02": {
         "functions": [T + "_continue", T + "_accept_error", T + "_queue_throw_error", T + "is_blocked", "async_task.unwrap",
@@ -73,7 +75,7 @@ PROPERTIES = {
     },
     "C03": {
         "functions": [T + "is_blocked", T + "_continue", T + "_continue_on_generator", T + "__init__", T + "_computed",
-                      T + "_accept_yield_result", S + "_handle_async_task", S + "_execute", S + "_continue_with_task",
+                      T + "_accept_yield_result", "async_task.extract_futures", S + "_handle_async_task", S + "_execute", S + "_continue_with_task",
                       S + "wait_for"],
         "assumptions": [A_ENV_GEN, A_UNWRAP, "termination is not decided (liveness); lemma cnt-monotone is proved by its two induction cases"],
         "lemmas": ["cnt-monotone"],
@@ -81,8 +83,9 @@ PROPERTIES = {
     },
     "C04": {
         "functions": [S + "_execute", S + "wait_for", S + "_continue_with_batch", S + "_handle_async_task",
-                      S + "_schedule_batch", S + "_continue_with_task", S + "_select_batch_to_flush"],
-        "assumptions": [A_ENV_GEN],
+                      S + "_schedule_batch", S + "_continue_with_task", S + "_select_batch_to_flush",
+                      "async_task.extract_futures", T + "_accept_yield_result"],
+        "assumptions": [A_ENV_GEN, A_UNWRAP],
         "lemmas": ["cnt-monotone"],
         "not_proved": ["the protocol-level inductive invariant Settled (every unfinished task blocked on an unflushed item) is not discharged: "
                        "what is proved are the local contracts it rests on (first visit pushes every uncomputed dependency in order, second visit pops and "
@@ -201,9 +204,10 @@ PROPERTIES = {
     "C20": {
         "functions": [S + "_continue_with_batch", S + "_flush_batch", S + "_continue_with_task", S + "_handle_async_task", S + "_execute",
                       S + "_schedule_batch", S + "_select_batch_to_flush", S + "wait_for", B + "BatchBase.flush", F + "FutureBase._computed", T + "_continue_on_generator",
-                      T + "__init__", B + "BatchItemBase.__init__", T + "_accept_yield_result", T + "_queue_exit", T + "_accept_error"],
+                      T + "__init__", B + "BatchItemBase.__init__", T + "_accept_yield_result", T + "_queue_exit", T + "_accept_error",
+                      T + "_computed", T + "collect_perf_stats", T + "dump_perf_stats", T + "to_str"],
         "structural": ["option-erasure", "carith-clock-fields"],
-        "assumptions": ["options are not toggled while tasks are alive", "debug.write/str/repr/dump are total and touch only stdout/stderr (C18)",
+        "assumptions": ["options are not toggled while tasks are alive", "debug.write/str/repr/dump are total and touch only stdout/stderr (C18); the name of a task (to_str, used by profiling) is proved not to raise even when repr() of an argument does",
                         "ENABLE_COMPLEX_ASSERTIONS guards an assertion of a documented precondition"],
     },
     "C10": {
